@@ -6,6 +6,10 @@ ALL = ["C%02d" % i for i in range(1, 21)]
 
 CODEC_NOTE = "Trusted: the reflection bridge (identity-checked on every case), the schema universe and alphabets, the reference codecs, the Go toolchain. Schemas enter as the generator's intermediate JSON (the Java parser is absent). Small-scope bounds: depth <= 2 (3 on spines), <= 5 entries, strings <= 2 chars over the metacharacter set + tokens."
 CHECKS = {
+ "C15": dict(engine="enumx", category="model_checking", design="§3 C15",
+   technique="exhaustive product of a base-URL grammar x encoded resource paths x queries through the real NewGetRequest / NewJsonRequest, against a reference URL construction; wire request line included",
+   text="5 scheme/host combinations x 85 context paths (0-3 segments over {root, root+suffix, prefix-of-root, other}) x trailing slash x 61 resource paths (20 key contents incl. %XX, dot segments, ; ? # and reserved characters at one and two key positions) x 10 queries x 2 request kinds = 2.07e6 request constructions per run; scheme, host, escaped path, raw query, String() re-parse and the request target as written to the wire must equal the reference construction.",
+   note="Trusted: refurl (written from the statement), net/url. Contexts holding the root name as a complete non-final segment are don't-care."),
  "C05": dict(engine="enumx", category="model_checking", design="§3 C05, Appendix A",
    technique="explicit-state enumeration of (registered tree, request) pairs served by the real router with stub resource code through an in-memory HTTP wire, against a routing decision table",
    text="About 70 (quick) / 200 (thorough) registered trees (6 shapes x method sets none / each single / all / all-but-one) x the full product of verb, method header (absent, 13 names, unknown), 12 path shapes, q / ids / action presence, tunnelled or not, 6 filter stacks and 3 mountings (quick: filter stack and mounting one at a time) - 2.8e7 requests in quick - are parsed by net/http's server parser and routed by the real handler of both generations; status, the invoked stub, the filter/method order and the routing facts seen by filters must match the reference table; handlers obtained before later registrations must not change.",
